@@ -242,6 +242,60 @@ fn adaptor_suite(ctx: &mut Ctx, rng: &mut Rng, x: &Series) {
             Box::new(xf.rolling_custom_iter(w, |s: &[f64]| s.iter().filter(|v| !v.is_nan()).sum::<f64>()))
         }, Some(len));
     }
+    // the lazy rolling iterator of every other backend (each may override the default body)
+    {
+        let dq = deque_of(&xf, rng.below(len + 1));
+        let arr = nd_owned(&xf);
+        let step = *rng.pick(&[1isize, 2, -1]);
+        let base = nd_base(&xf, step, 7e5);
+        let view = nd_view(&base, step);
+        let av = arc_vec(&xf);
+        let fsum = |it: &mut dyn Iterator<Item = f64>| it.filter(|v| !v.is_nan()).sum::<f64>();
+        for w in 1..=len + 3 {
+            conserve(ctx, "rolling_custom_iter[deque]", &ds(format!("rolling_custom_iter(w={w}) of deque {xs}")), &|| {
+                Box::new(dq.rolling_custom_iter(w, |s| fsum(&mut s.copied())))
+            }, Some(len));
+            conserve(ctx, "rolling_custom_iter[array1]", &ds(format!("rolling_custom_iter(w={w}) of array1 {xs}")), &|| {
+                Box::new(arr.rolling_custom_iter(w, |s| fsum(&mut s.iter().copied())))
+            }, Some(len));
+            conserve(ctx, "rolling_custom_iter[arrayview1]", &ds(format!("rolling_custom_iter(w={w}) of arrayview1(step {step}) {xs}")), &|| {
+                Box::new(view.rolling_custom_iter(w, |s| fsum(&mut s.iter().copied())))
+            }, Some(len));
+            conserve(ctx, "rolling_custom_iter[arc<vec>]", &ds(format!("rolling_custom_iter(w={w}) of arc<vec> {xs}")), &|| {
+                Box::new(av.rolling_custom_iter(w, |s: &[f64]| fsum(&mut s.iter().copied())))
+            }, Some(len));
+            let ov = xf.opt();
+            conserve(ctx, "rolling_custom_iter[optiter]", &ds(format!("rolling_custom_iter(w={w}) of opt view {xs}")), &|| {
+                Box::new(ov.rolling_custom_iter(w, |s: Vec<Option<f64>>| s.into_iter().flatten().sum::<f64>()))
+            }, Some(len));
+            // rolling_custom (returned path) collects the lazy iterator with the trusted collector
+            ctx.events += 1;
+            match catch(|| ov.rolling_custom::<Vec<f64>, f64, _>(w, |s: Vec<Option<f64>>| s.into_iter().flatten().sum::<f64>(), None).map(|v| v.len())) {
+                Ok(Some(l)) if l == len => ctx.count("rolling_custom_collected_ok"),
+                Ok(l) => ctx.violation("rolling_custom[optiter]/length", || format!("rolling_custom(w={w}) on the opt view of {xs} returns {l:?} elements")),
+                Err(p) => {
+                    let kind = if is_marked_panic(&p) { "memory" } else { "panic" };
+                    ctx.violation(&format!("rolling_custom[optiter]/{kind}/{}", panic_key(&p)), || format!("{p}; rolling_custom(w={w}) on the opt view of {xs}"));
+                },
+            }
+        }
+        #[cfg(feature = "polars")]
+        {
+            let xo = enc_opt_f64(x);
+            for nch in 1..=3usize {
+                let ca = pl::f64_chunked(&xo, nch);
+                for w in 1..=len + 3 {
+                    conserve(ctx, "rolling_custom_iter[polars]", &ds(format!("rolling_custom_iter(w={w}) of polars ({nch} chunks) {xs}")), &|| {
+                        Box::new(ca.rolling_custom_iter(w, |s| s.titer().flatten().sum::<f64>()))
+                    }, Some(len));
+                    let r = &ca;
+                    conserve(ctx, "rolling_custom_iter[&polars]", &ds(format!("rolling_custom_iter(w={w}) of &polars ({nch} chunks) {xs}")), &|| {
+                        Box::new(r.rolling_custom_iter(w, |s| s.titer().flatten().sum::<f64>()))
+                    }, Some(len));
+                }
+            }
+        }
+    }
     // vcut: all small bin / label sizes
     for nb in 0..=3usize {
         for nl in 0..=4usize {
